@@ -42,10 +42,10 @@ CHECKS.update({
  "C13": ("model_checking", "TLC on Callbacks.tla (Decide table incl. bump before every kind of decision, SkipTransparent, PartialIsPrefix) + replay of items and callback invocation logs on ordinary and partial lexers",
          "The documented callback table is a TLA+ operator (Decide); subject callbacks implement the same pure decisions; expected items (with payloads and error values) and the list of callback invocations with spans are replayed on four builds.",
          "callback decisions depend on the match length only; 8 hand-written definitions", "5 C13"),
- "C14": ("model_checking", "TLC on LexerAPI.tla (all reachable states of two lexer slots over two source buffers: next, bump, clone, clone_from, morph, spanned, fresh lexer) + seeded TLC simulation of longer histories + replay of one history per state x operation",
+ "C14": ("model_checking", "TLC on LexerAPI.tla (all reachable states of two lexer slots over two source buffers: next, bump, clone, clone_from, morph, spanned, fresh lexer) + seeded TLC simulation of longer histories + replay of one history per state x operation; ApiTrace.tla: recorded random call sequences of the real API validated against LexerAPI.tla",
          "TLC explores every reachable state of the API state machine (next, bump, clone, morph, spanned over two slots and two token types) and the harness replays a history reaching each state followed by each enabled operation against the real API, comparing results, spans, extras and slice()/remainder() equations.",
          "three hand-written pairs of definitions; inputs up to 3-4 characters", "3.6, 5 C14"),
- "C15": ("model_checking", "TLC on LexerAPI.tla (SpanInv; Bump with every n incl. overflow) + replay on debug/release x default/forbid_unsafe",
+ "C15": ("model_checking", "TLC on LexerAPI.tla (SpanInv; Bump with every n incl. overflow) + replay on debug/release x default/forbid_unsafe; ApiTrace.tla: recorded random call sequences (bump with valid, invalid and overflowing n) validated against LexerAPI.tla with SpanInv as an invariant of the trace specification",
          "Bump is an action for every n up to len+2 and for usize::MAX-1, usize::MAX; SpanInv is a TLC invariant; the real bump is called inside catch_unwind in debug and release builds and the lexer must be unchanged after a panic and usable afterwards.",
          "two huge values stand for all overflowing n", "3.6, 5 C15"),
  "C09": ("exploration", "TLC enumeration of regex ASTs with Complexity (Regex.tla, LiteralNotBeaten checked) replayed against captured leaf priorities",
@@ -109,6 +109,7 @@ def main():
             {"name": "compile", "path": "spec/Compile.tla", "serves_properties": ["C01"], "kind_free_text": "the four passes of Graph::new transcribed and compared with the hook's pass snapshots (drift level); Attempt.tla on every snapshot"},
             {"name": "regex", "path": "spec/Regex.tla", "serves_properties": ["C09", "C01"], "kind_free_text": "regex ASTs: Complexity (priorities), Matches (textbook semantics, RegexAgree against the real lexers)"},
             {"name": "lextrace", "path": "spec/LexTrace.tla", "serves_properties": ["C03", "C04", "C05", "C06", "C20"], "kind_free_text": "trace validation of recorded hook events (code -> spec)"},
+            {"name": "apitrace", "path": "spec/ApiTrace.tla", "serves_properties": ["C14", "C15"], "kind_free_text": "trace validation of recorded API call sequences (code -> spec): every call must be an operation LexerAPI.tla enables, with the recorded result and observation"},
             {"name": "api", "path": "spec/LexerAPI.tla", "serves_properties": ["C14", "C15"], "kind_free_text": "API state machine over lexer objects and two source buffers (exhaustive to a bound + seeded simulation beyond it) + history replay"},
             {"name": "callbacks", "path": "spec/Callbacks.tla", "serves_properties": ["C13"], "kind_free_text": "callback decision table, bump inside callbacks, partial lexers + replay"},
             {"name": "front", "path": "spec/Derive.tla", "serves_properties": ["C09", "C16", "C17", "C18", "C19"], "kind_free_text": "TLC-enumerated programs (Derive, Attr, Regex, Cli, GenTrace) replayed on the real derive / rustc / logos-cli"},
